@@ -41,7 +41,7 @@ from wpull.cookiewrapper import CookieJarWrapper
 from wpull.cookie import DeFactoCookiePolicy
 
 P = 'C09'
-BUDGETS = {'C09': (55, 1200, 40)}
+BUDGETS = {'C09': (75, 1200, 40)}
 LEVELS = {'C09': 'exploration'}
 ALLOWED = (ServerError, ProtocolError, SSLVerificationError, NetworkError)
 PROBES = {'C09': ['layer.http', 'layer.web', 'layer.robots', 'layer.ftp', 'layer.crawl', 'crawl_ftp', 'long_line', 'raw_random', 'truncated', 'odd_location',
